@@ -75,10 +75,23 @@ theorem wants_iff (o : Outcome) (ra : Nat) :
       o ≠ .beforeErr ∧ aborted p o ra = false ∧ o ≠ .cancelled ∧ p.enabled = true ∧
       (p.maxRetries < 0 ∨ (ra : Int) < p.maxRetries) ∧
       (if p.conds.isEmpty then o.errKind.isSome = true
-       else ∃ c ∈ p.conds, c.2 ⟨ra, o.view, o.errKind⟩ = true) := by
+       else ∃ c ∈ p.conds, c.2 ⟨ra, o.view, o.errKind⟩ = true) ∧
+      o.ctxDone = false := by
   unfold wants need
   by_cases hc : p.conds.isEmpty = true <;>
     simp [hc, and_assoc]
+
+/-- No further attempt once the request's context is done — cancelled, or its deadline passed —
+whatever the retry count, the conditions and the interval. -/
+theorem no_attempt_after_context_done (o : Outcome) (ra : Nat)
+    (h : o = .cancelled ∨ o.ctxDone = true) : wants p o ra = false := by
+  cases hw : wants p o ra with
+  | false => rfl
+  | true =>
+    have := (wants_iff p o ra).mp hw
+    rcases h with h | h
+    · exact absurd h this.2.2.1
+    · rw [this.2.2.2.2.2.2] at h; cases h
 
 /-- **retry_iff** (whole run): attempt `k+1` happens iff attempt `k` happened, the script has an
 outcome for it, and the specification wanted a retry after attempt `k`. -/
@@ -208,29 +221,53 @@ theorem range_flatMap_succ {α : Type} (f : Nat → List α) (n : Nat) :
     (List.range (n + 1)).flatMap f = f 0 ++ (List.range n).flatMap fun j => f (j + 1) := by
   simp [List.range_succ_eq_map, List.flatMap_map]
 
+/-- Did the run end in the wait before a further attempt (context found done)? -/
+def interruptedAt : List Outcome → Nat → Bool
+  | [], _ => false
+  | o :: rest, ra => if wants p o ra then interruptedAt rest (ra + 1) else interrupted p o ra
+
 /-- **hooks_once_per_retry**: the calls of retry hooks and of the interval function over the
 whole run are, for retry number `j = 1, 2, …` in turn: every registered hook once, in reverse
-registration order, then the interval function once — all with attempt number `j`. -/
+registration order, then the interval function once — all with attempt number `j`.  If the wait
+that follows finds the context done, that last block is not followed by an attempt. -/
 theorem hooks_once_per_retry (script : List Outcome) (ra : Nat) (st : σ) (prev : Option Resp) :
     calls (loop R p mw script ra st prev).1 =
-      (List.range (retries p script ra)).flatMap fun j => block p (ra + j + 1) := by
+      ((List.range (retries p script ra)).flatMap fun j => block p (ra + j + 1)) ++
+      (if interruptedAt p script ra then block p (ra + retries p script ra + 1) else []) := by
   induction script generalizing ra st prev with
-  | nil => simp [loop, calls, retries]
+  | nil => simp [loop, calls, retries, interruptedAt]
   | cons o rest ih =>
     by_cases h : wants p o ra = true
     · obtain ⟨ev, hev, _, _, hc⟩ := iter_cont p mw o ra st prev h
       rw [loop_cons_cont p mw o rest ra st prev h, calls_append, ih, hev]
       have hr : retries p (o :: rest) ra = retries p rest (ra + 1) + 1 := by simp [retries, h]
+      have hia : interruptedAt p (o :: rest) ra = interruptedAt p rest (ra + 1) := by
+        simp [interruptedAt, h]
       have hf : (fun j => block p (ra + (j + 1) + 1)) = fun j => block p (ra + 1 + j + 1) := by
         funext j
         have e : ra + (j + 1) + 1 = ra + 1 + j + 1 := by omega
         rw [e]
-      rw [hr, range_flatMap_succ, hf, hc]
+      have e2 : ra + (retries p rest (ra + 1) + 1) + 1 = ra + 1 + retries p rest (ra + 1) + 1 := by omega
+      rw [hr, hia, range_flatMap_succ, hf, hc, e2]
+      simp [List.append_assoc]
     · have h' : wants p o ra = false := by simpa using h
       obtain ⟨ev, fin, hev, _, hc, -⟩ := iter_stop p mw o ra st prev h'
       obtain ⟨fin', _, hl⟩ := loop_cons_stop p mw o rest ra st prev h'
       rw [hl, hev]
-      simp [hc, retries, h']
+      simp [hc, retries, interruptedAt, h']
+
+/-- **the context ends the run**: if the outcome of attempt `k` is a cancelled context, or the
+context is done when the wait after it begins, attempt `k` is the last one. -/
+theorem stops_when_context_done (script : List Outcome) (ra : Nat) (st : σ) (prev : Option Resp)
+    (k : Nat) (o : Outcome) (hk : script[k]? = some o) (h : o = .cancelled ∨ o.ctxDone = true) :
+    iterations (loop R p mw script ra st prev).1 ≤ k + 1 := by
+  by_cases hlt : k + 1 < iterations (loop R p mw script ra st prev).1
+  · obtain ⟨_, _, o', ho', hw⟩ := (retry_iff p mw script ra st prev k).mp hlt
+    rw [hk] at ho'
+    cases ho'
+    rw [no_attempt_after_context_done p o (ra + k) h] at hw
+    cases hw
+  · omega
 
 /-- The response `resp` holds before iteration `k` of the loop (`prev` before the first). -/
 def respBefore (prev : Option Resp) (script : List Outcome) (ra : Nat) : Nat → Option Resp
@@ -239,17 +276,21 @@ def respBefore (prev : Option Resp) (script : List Outcome) (ra : Nat) : Nat →
 
 /-- **result_is_last**: when `do` returns, the response is the one of the last attempt `k`, and
 the error is that attempt's round-trip error — or the error of the request-level response
-middleware that aborted that attempt.  (If the last iteration never reached the wire because a
-request middleware failed, the error is that middleware's and `resp` is still the previous
-attempt's response.) -/
+middleware that aborted that attempt, or the context's error if the wait after that attempt
+found the context done.  (If the last iteration never reached the wire because a request
+middleware failed, the error is that middleware's and `resp` is still the previous attempt's
+response.) -/
 theorem result_is_last (script : List Outcome) (ra : Nat) (st : σ) (prev : Option Resp)
     (ev : List (Event W)) (resp : Option Resp) (err : Option Err)
     (h : loop R p mw script ra st prev = (ev, .done resp err)) :
     ∃ k o, script[k]? = some o ∧ iterations ev = k + 1 ∧
-      (o ≠ .beforeErr →
+      (o ≠ .beforeErr → interrupted p o (ra + k) = false →
         resp = some (respOf o (ra + k)) ∧
         (err = o.errKind.map (ra + k, ·) ∨
           (aborted p o (ra + k) = true ∧ ∃ j, err = some (ra + k, .after j)))) ∧
+      (interrupted p o (ra + k) = true →
+        resp = some { respOf o (ra + k) with err := some (ra + k, .waitCtx) } ∧
+        err = some (ra + k, .waitCtx)) ∧
       (o = .beforeErr → resp = respBefore prev script ra k ∧ err = some (ra + k, .before)) := by
   induction script generalizing ra st prev ev with
   | nil => simp [loop] at h
@@ -259,12 +300,13 @@ theorem result_is_last (script : List Outcome) (ra : Nat) (st : σ) (prev : Opti
       rw [loop_cons_cont p mw o rest ra st prev hw] at h
       simp only [Prod.mk.injEq] at h
       obtain ⟨hev2, hfin⟩ := h
-      obtain ⟨k, o', hk, hit, h1, h2⟩ := ih (ra + 1) (nextState p mw o ra st) (some (respOf o ra)) _
+      obtain ⟨k, o', hk, hit, h1, h3, h2⟩ := ih (ra + 1) (nextState p mw o ra st) (some (respOf o ra)) _
         (Prod.ext rfl hfin)
       have e : ra + 1 + k = ra + (k + 1) := by omega
-      refine ⟨k + 1, o', by simpa using hk, ?_, ?_, ?_⟩
+      refine ⟨k + 1, o', by simpa using hk, ?_, ?_, ?_, ?_⟩
       · rw [← hev2, iterations_append, hit, hev]; simp [hi]; omega
       · rw [← e]; exact h1
+      · rw [← e]; exact h3
       · intro hb
         obtain ⟨hr, he⟩ := h2 hb
         rw [← e]
@@ -276,7 +318,7 @@ theorem result_is_last (script : List Outcome) (ra : Nat) (st : σ) (prev : Opti
           have e2 : ra + 1 + j = ra + (j + 1) := by omega
           simp [respBefore, e2]
     · have hw' : wants p o ra = false := by simpa using hw
-      obtain ⟨ev1, fin, hev, hi, _, _, hb, hnb⟩ := iter_stop p mw o ra st prev hw'
+      obtain ⟨ev1, fin, hev, hi, _, _, hb, hnb, hint⟩ := iter_stop p mw o ra st prev hw'
       obtain ⟨fin', hf', hl⟩ := loop_cons_stop p mw o rest ra st prev hw'
       rw [hl, hev] at h
       simp only [Prod.mk.injEq] at h
@@ -284,13 +326,19 @@ theorem result_is_last (script : List Outcome) (ra : Nat) (st : σ) (prev : Opti
       simp only [Sum.inl.injEq] at hf'
       obtain ⟨rfl, hfin⟩ := h
       subst hf'
-      refine ⟨0, o, by simp, by simp [hi], ?_, ?_⟩
-      · intro ho
-        obtain ⟨err', hd, hcase⟩ := hnb ho
+      refine ⟨0, o, by simp, by simp [hi], ?_, ?_, ?_⟩
+      · intro ho hni
+        obtain ⟨err', hd, hcase⟩ := hnb ho hni
         rw [hfin] at hd
         simp only [Final.done.injEq] at hd
         obtain ⟨rfl, rfl⟩ := hd
         exact ⟨rfl, hcase⟩
+      · intro hin
+        have := hint hin
+        rw [hfin] at this
+        simp only [Final.done.injEq] at this
+        obtain ⟨rfl, rfl⟩ := this
+        exact ⟨rfl, rfl⟩
       · intro ho
         have := hb ho
         rw [hfin] at this
@@ -307,7 +355,7 @@ theorem repaired_never_panics (script : List Outcome) (ra : Nat) (st : σ) (prev
     by_cases hw : wants p o ra = true
     · rw [loop_cons_cont p mw o rest ra st prev hw]; exact ih _ _ _
     · have hw' : wants p o ra = false := by simpa using hw
-      obtain ⟨ev1, fin, hev, _, _, _, hb, hnb⟩ := iter_stop p mw o ra st prev hw'
+      obtain ⟨ev1, fin, hev, _, _, _, hb, hnb, hint⟩ := iter_stop p mw o ra st prev hw'
       obtain ⟨fin', hf', hl⟩ := loop_cons_stop p mw o rest ra st prev hw'
       rw [hl]
       rw [hev] at hf'
@@ -315,8 +363,10 @@ theorem repaired_never_panics (script : List Outcome) (ra : Nat) (st : σ) (prev
       subst hf'
       by_cases ho : o = .beforeErr
       · rw [hb ho]; simp
-      · obtain ⟨e, he, -⟩ := hnb ho
-        rw [he]; simp
+      · by_cases hin : interrupted p o ra = true
+        · rw [hint hin]; simp
+        · obtain ⟨e, he, -⟩ := hnb ho (by simpa using hin)
+          rw [he]; simp
 
 /-- **unreplayable_fails_upfront**: a retryable request (retry option present, count ≠ 0) with a
 body that cannot be replayed is refused before anything is sent … -/
@@ -483,7 +533,7 @@ theorem refused_iff_unreplayable (p : Policy ReqState) (c : ClientCfg) (st : Req
           by_cases hw : wants p o ra = true
           · rw [loop_cons_cont p (Attempt.mw R c) o rest ra s prev hw]; exact ih _ _ _
           · have hw' : wants p o ra = false := by simpa using hw
-            obtain ⟨ev1, fin, hev, _, _, _, hb, hnb⟩ := iter_stop p (Attempt.mw R c) o ra s prev hw'
+            obtain ⟨ev1, fin, hev, _, _, _, hb, hnb, hint⟩ := iter_stop p (Attempt.mw R c) o ra s prev hw'
             obtain ⟨fin', hf', hl⟩ := loop_cons_stop p (Attempt.mw R c) o rest ra s prev hw'
             rw [hl]
             rw [hev] at hf'
@@ -491,8 +541,10 @@ theorem refused_iff_unreplayable (p : Policy ReqState) (c : ClientCfg) (st : Req
             subst hf'
             by_cases ho : o = .beforeErr
             · rw [hb ho]; simp
-            · obtain ⟨e, he, -⟩ := hnb ho
-              rw [he]; simp
+            · by_cases hin : interrupted p o ra = true
+              · rw [hint hin]; simp
+              · obtain ⟨e, he, -⟩ := hnb ho (by simpa using hin)
+                rw [he]; simp
       exact this script 0 st none h
   · intro hu
     simp [run, he, hn, hu]
@@ -735,6 +787,18 @@ example : iterations (run R (exPolicy []) exMw false
 /-- … of `retry_iff`: a cancelled context stops the loop although retries are left -/
 example : iterations (loop R (exPolicy []) exMw [.transportErr, .cancelled, .status 200] 0 () none).1 = 2 := by
   decide
+/-- … of `stops_when_context_done` / `hooks_once_per_retry` with an interrupted wait: the deadline
+of the request's context passes during attempt 0; the default rule asks for a retry, hooks and
+interval function run once, the wait finds the context done: one attempt, although 2 retries
+are left, and the context's error is returned -/
+example : iterations (loop R (exPolicy []) exMw [.deadlineCtx, .status 200] 0 () none).1 = 1 ∧
+    calls (loop R (exPolicy []) exMw [.deadlineCtx, .status 200] 0 () none).1 =
+      [.hook 1 1, .hook 0 1, .interval 1] ∧
+    ((loop R (exPolicy []) exMw [.deadlineCtx, .status 200] 0 () none).2).returned =
+      some (some (0, .noHttp), some (0, .waitCtx)) := by decide
+/-- … the same for a context cancelled after a 503 that a condition wants retried -/
+example : iterations (loop R (⟨true, -1, [(0, fun o => o.resp == .status 503)], [], [], .fixed 0⟩ : Policy Unit) exMw
+    [.status 503, .lateCancel 503, .status 200] 0 () none).1 = 2 := by decide
 /-- … of `result_is_last` -/
 example : ((loop R (exPolicy []) exMw [.transportErr, .badBody 500, .transportErr, .status 200] 0 () none).2).returned
     = some (some (2, .noHttp), some (2, .transport)) := by decide
